@@ -220,8 +220,14 @@ def run_thresholds(inst, variant=0):
             }
             # the best fit of the 'total' sector: first call whose targets are the p_est column, in row order
             pe = [pt[2] for pt in sorted(out['points'], key=lambda t: (t[0], t[1]))]
-            first = [c for c in calls if sorted(c['ydata']) == sorted(pe) and len(c['ydata']) == len(pe)]
-            out['raw_opt'] = first[0].get('popt') if first else None
+            first = [i for i, c in enumerate(calls) if sorted(c['ydata']) == sorted(pe)]
+            out['raw_opt'] = None
+            if first:
+                k = first[-1]                      # the 'total' sector is fitted last
+                out['raw_opt'] = calls[k].get('popt')
+                out['fit_raised'] = calls[k].get('raised')
+                # error-rate ranges of the bootstrap resamples that follow the best fit
+                out['bs_bounds'] = [[min(c['xdata'][0]), max(c['xdata'][0])] for c in calls[k + 1:]]
     except Exception as e:  # noqa: BLE001
         out = {'error': f'EXC:{type(e).__name__}:{str(e)[:120]}'}
     finally:
@@ -375,9 +381,11 @@ def correspondence(ctx):
         s.add(f'fssrange - - {rows}',
               f"{out['n_trunc']} {Fraction(out['p_left'])} {Fraction(out['p_right'])}", desc, tag='range')
         if out.get('raw_opt'):
-            # glue between the optimiser's answer and the reported fss_params (100 bootstrap iterations)
-            s.add(f"fssreported {fr(out['raw_opt'][0])} {fr(out['p_left'])} {fr(out['p_right'])} 100 {fr(fss[0])}",
-                  'ok', desc, tag='reported-vs-optimiser')
+            # glue between the optimiser's answer and the reported fss_params (in-place overwrites in the
+            # bootstrap loop, replayed by the model on the recorded resample ranges)
+            bounds = ';'.join(f'{fr(lo)},{fr(hi)}' for lo, hi in out['bs_bounds']) or '-'
+            s.add(f"fssreported {fr(out['raw_opt'][0])} {bounds} {fr(fss[0])}", 'ok', desc,
+                  tag='reported-vs-optimiser')
         s.add(f'fssrecovered {fr(inst["pth"])} {fr(recovery_tol(out))} ' + toks, 'recovered', desc, tag='recovery')
     streams.append(s.run())
     return streams
@@ -485,8 +493,12 @@ def check_case(case):
             # optimiser) is not counted against panqec here.
             raw = out.get('raw_opt')
             if raw is not None and not checks and out['fss_params'] != raw:
-                mid = (out['p_left'] + out['p_right']) / 2
-                name = ('fss-params-overwritten-by-range-midpoint' if out['fss_params'][0] == mid
+                cur = raw[0]
+                for lo, hi in out['bs_bounds']:
+                    if not (lo <= cur and cur <= hi):
+                        cur = (lo + hi) / 2
+                name = ('fss-params-overwritten-by-range-midpoint'
+                        if out['fss_params'][0] == cur and out['fss_params'][1:] == raw[1:]
                         else 'fss-params-not-the-fit')
                 checks.append((name, f"fss_params={out['fss_params']} but curve_fit returned {raw}; data range "
                                      f"[{out['p_left']}, {out['p_right']}], planted p_th {inst['pth']}, "
